@@ -174,23 +174,22 @@ func BuildSchemaValidation(schema *openapi3.SchemaRef, validationString string, 
 			} else {
 				logger.Warn("Validation rule 'uniqueItems' is only applicable to array fields, got %s", specType)
 			}
-		case "enum":
-			enumValues := strings.Split(ruleValue, "|")
-			if len(enumValues) == 0 || enumValues[0] == "" {
-				logger.Warn("Validation rule 'enum' must have at least one value")
-				schema.Value.Enum = nil
-			} else {
-				// The rule states the complete member list (as `oneof` does, and as the 3.1 converter does)
-				schema.Value.Enum = make([]interface{}, 0, len(enumValues))
-				for _, v := range enumValues {
-					schema.Value.Enum = append(schema.Value.Enum, v)
+		case "enum", "oneof":
+			// Both rules state the complete member list; 'enum' separates members with '|', 'oneof' with blanks
+			var oneofValues []string
+			if ruleName == "enum" {
+				oneofValues = strings.Split(ruleValue, "|")
+				if len(oneofValues) == 0 || oneofValues[0] == "" {
+					logger.Warn("Validation rule 'enum' must have at least one value")
+					schema.Value.Enum = nil
+					continue
 				}
-			}
-		case "oneof":
-			oneofValues := strings.Fields(ruleValue)
-			if len(oneofValues) == 0 {
-				logger.Warn("Validation rule 'oneof' must have at least one value")
-				continue
+			} else {
+				oneofValues = strings.Fields(ruleValue)
+				if len(oneofValues) == 0 {
+					logger.Warn("Validation rule 'oneof' must have at least one value")
+					continue
+				}
 			}
 
 			schema.Value.Enum = make([]interface{}, 0, len(oneofValues))
@@ -216,8 +215,16 @@ func BuildSchemaValidation(schema *openapi3.SchemaRef, validationString string, 
 						logger.Warn("Invalid number value in oneof: %s", v)
 					}
 				}
+			case "boolean":
+				for _, v := range oneofValues {
+					if val, err := strconv.ParseBool(v); err == nil {
+						schema.Value.Enum = append(schema.Value.Enum, val)
+					} else {
+						logger.Warn("Invalid boolean value in %s: %s", ruleName, v)
+					}
+				}
 			default:
-				logger.Warn("oneof validation for type %s might not be properly handled", specType)
+				logger.Warn("%s validation for type %s might not be properly handled", ruleName, specType)
 				for _, v := range oneofValues {
 					schema.Value.Enum = append(schema.Value.Enum, v)
 				}
